@@ -1,135 +1,177 @@
 /-
 C01, stage 1: programs of nesting depth 0 (`Flat`: no body calls a memoised function), every
 operation of the model (sources, singletons, tracked fields, calls, lookups, retain / clear /
-never-gc, gc).  Under `CleanCalls` every call returns the from-scratch value.
+never-gc, gc).  Under `CleanCalls` (no call panics) every call returns the from-scratch value —
+reads of absent singletons / never-written tracked fields included (code after the repair of F1/F2).
 
 The invariant is history-free.  For a derived node with revision `r` (all its dependencies are
-sources): if every recorded dependency is still *fresh* (present, `tu ≤ stamp`) then for EVERY
-source state that agrees with the current one on the recorded keys the body evaluates (strictly)
-to `r.val`; and a node verified in the current epoch is fresh.
+sources, present or absent when read): for EVERY source state that matches the recorded
+dependencies — a present one is still there with `tu ≤ stamp` and is observed as now, an absent
+one is absent — the body evaluates to `r.val`; and a node verified in the current epoch matches
+the current state.
 -/
 import IsoVerif.Lemmas.PicoBasic
 
 namespace IsoVerif.Pico
 
-/-- call oracle for bodies that contain no call -/
-def noCallee : NodeId → Res Nat := fun _ => .panic .fuel
-
 /-- what a body can observe of a key -/
 def keyObs (srcs : List (Key × SrcNode)) (maps : List (List Nat)) (k : Key) : Option Nat × Nat :=
   ((alookup srcs k).map (·.val), match k with | .ctr m => mapLen maps m | _ => 0)
 
-def AgreeOn (K : List Key) (σ : List (Key × SrcNode)) (m : List (List Nat))
-    (σ' : List (Key × SrcNode)) (m' : List (List Nat)) : Prop :=
-  ∀ k, k ∈ K → keyObs σ m k = keyObs σ' m' k
+theorem keyObs_of_lookup_maps {σ σ' : List (Key × SrcNode)} {m m' : List (List Nat)} {k : Key}
+    (h1 : alookup σ' k = alookup σ k) (h2 : ∀ i, k = .ctr i → mapLen m' i = mapLen m i) :
+    keyObs σ' m' k = keyObs σ m k := by
+  unfold keyObs
+  rw [h1]
+  cases k with
+  | src n => rfl
+  | sing i => rfl
+  | ctr i => simp [h2 i rfl]
 
-def depKeys : List Dep → List Key
-  | [] => []
-  | d :: ds => match d.node with
-    | .source k => k :: depKeys ds
-    | .derived _ => depKeys ds
+/-- the observation recorded by a dependency holds in `(σ', m')` -/
+def ObsMatch (s : Storage) (σ' : List (Key × SrcNode)) (m' : List (List Nat)) : DepNode → Prop
+  | .source k => keyObs σ' m' k = keyObs s.srcs s.maps k
+  | .absent k => alookup σ' k = none ∧ ∀ i, k = .ctr i → mapLen m' i = 0
+  | .derived _ => True
 
-theorem mem_depKeys {ds : List Dep} {k : Key} : k ∈ depKeys ds ↔ ∃ d, d ∈ ds ∧ d.node = .source k := by
-  induction ds with
-  | nil => simp [depKeys]
-  | cons d ds ih =>
-    cases hd : d.node with
-    | source k' =>
-      simp only [depKeys, hd, List.mem_cons, ih]
-      constructor
-      · rintro (rfl | ⟨d', hd', hk⟩)
-        · exact ⟨d, Or.inl rfl, hd⟩
-        · exact ⟨d', Or.inr hd', hk⟩
-      · rintro ⟨d', (rfl | hd'), hk⟩
-        · rw [hd] at hk; cases hk; exact Or.inl rfl
-        · exact Or.inr ⟨d', hd', hk⟩
-    | derived m =>
-      simp only [depKeys, hd, List.mem_cons, ih]
-      constructor
-      · rintro ⟨d', hd', hk⟩; exact ⟨d', Or.inr hd', hk⟩
-      · rintro ⟨d', (rfl | hd'), hk⟩
-        · rw [hd] at hk; cases hk
-        · exact ⟨d', hd', hk⟩
+/-- the dependency is intact in `s` (a present source still there and not re-stamped) and what it
+recorded holds in `(σ', m')` -/
+def DepMatch (s : Storage) (σ' : List (Key × SrcNode)) (m' : List (List Nat)) (d : Dep) : Prop :=
+  match d.node with
+  | .source k => (∃ nd, alookup s.srcs k = some nd ∧ nd.tu ≤ d.stamp) ∧ keyObs σ' m' k = keyObs s.srcs s.maps k
+  | .absent k => alookup σ' k = none ∧ ∀ i, k = .ctr i → mapLen m' i = 0
+  | .derived _ => False
 
-theorem depKeys_reverse (ds : List Dep) (k : Key) : k ∈ depKeys ds.reverse ↔ k ∈ depKeys ds := by
-  simp [mem_depKeys]
+theorem DepMatch.obs {s : Storage} {σ' : List (Key × SrcNode)} {m' : List (List Nat)} {d : Dep}
+    (h : DepMatch s σ' m' d) : ObsMatch s σ' m' d.node := by
+  unfold DepMatch at h; unfold ObsMatch
+  cases hd : d.node with
+  | source k => rw [hd] at h; exact h.2
+  | absent k => rw [hd] at h; exact h
+  | derived m => trivial
 
-/-- pushing a source dependency keeps every old key and adds the new one -/
-theorem depKeys_pushDep (rdeps : List Dep) (k : Key) (e : Nat) (k' : Key) :
-    k' ∈ depKeys (pushDep rdeps ⟨.source k, e⟩) ↔ k' = k ∨ k' ∈ depKeys rdeps := by
+/-- the dependency refers to a source as it is in `s`: present, or absent -/
+def NodeGood (s : Storage) : DepNode → Prop
+  | .source k => ∃ nd, alookup s.srcs k = some nd
+  | .absent k => alookup s.srcs k = none
+  | .derived _ => False
+
+/-- a property of every recorded dependency that only looks at the node -/
+def AllN (p : DepNode → Prop) (ds : List Dep) : Prop := ∀ d, d ∈ ds → p d.node
+
+theorem allN_pushDep (p : DepNode → Prop) (rdeps : List Dep) (n : DepNode) (e : Nat) :
+    AllN p (pushDep rdeps ⟨n, e⟩) ↔ p n ∧ AllN p rdeps := by
+  unfold AllN
   cases rdeps with
-  | nil => simp [pushDep, depKeys]
+  | nil => simp [pushDep]
   | cons l rest =>
-    by_cases h : l.node = .source k
-    · simp [pushDep, h, depKeys]
-    · cases hl : l.node with
-      | source k2 =>
-        have hne : k2 ≠ k := fun e => h (by rw [hl, e])
-        simp [pushDep, depKeys, hl, hne]
-      | derived m => simp [pushDep, depKeys, hl]
+    by_cases h : l.node = n
+    · simp only [pushDep, h, if_true, List.mem_cons]
+      constructor
+      · intro H; exact ⟨H _ (Or.inl rfl), fun d hd => by
+          rcases hd with rfl | hd
+          · rw [h]; exact H _ (Or.inl rfl)
+          · exact H d (Or.inr hd)⟩
+      · rintro ⟨h1, h2⟩ d hd
+        rcases hd with rfl | hd
+        · exact h1
+        · exact h2 d (Or.inr hd)
+    · simp only [pushDep, h, if_false, List.mem_cons]
+      constructor
+      · intro H; exact ⟨H _ (Or.inl rfl), fun d hd => H d (Or.inr hd)⟩
+      · rintro ⟨h1, h2⟩ d hd
+        rcases hd with rfl | hd
+        · exact h1
+        · exact h2 d hd
 
-/-- every dependency of the frame was stamped in the current epoch and is a present source -/
-def FrameGood (s : Storage) (fr : Frame) : Prop :=
-  ∀ d, d ∈ fr.rdeps → d.stamp = s.epoch ∧ ∃ k nd, d.node = .source k ∧ alookup s.srcs k = some nd
-
-theorem frameGood_push (s : Storage) (fr : Frame) (k : Key) (nd : SrcNode) (tu : Nat)
-    (hk : alookup s.srcs k = some nd) (hg : FrameGood s fr) :
-    FrameGood s { fr with rdeps := pushDep fr.rdeps ⟨.source k, s.epoch⟩, maxTu := tu } := by
-  intro d hd
-  simp only at hd
-  cases hr : fr.rdeps with
-  | nil =>
-    simp [hr, pushDep] at hd; subst hd; exact ⟨rfl, k, nd, rfl, hk⟩
+theorem stamps_pushDep (rdeps : List Dep) (n : DepNode) (e : Nat) (h : ∀ d, d ∈ rdeps → d.stamp = e) :
+    ∀ d, d ∈ pushDep rdeps ⟨n, e⟩ → d.stamp = e := by
+  cases rdeps with
+  | nil => intro d hd; simp [pushDep] at hd; subst hd; rfl
   | cons l rest =>
-    rw [hr] at hd
-    by_cases h : l.node = .source k
-    · simp [pushDep, h] at hd
+    intro d hd
+    by_cases hl : l.node = n
+    · simp only [pushDep, hl, if_true, List.mem_cons] at hd
       rcases hd with rfl | hd
-      · exact ⟨rfl, k, nd, rfl, hk⟩
-      · exact hg d (by rw [hr]; exact List.mem_cons_of_mem _ hd)
-    · simp [pushDep, h] at hd
-      rcases hd with rfl | rfl | hd
-      · exact ⟨rfl, k, nd, rfl, hk⟩
-      · exact hg _ (by rw [hr]; exact List.mem_cons_self)
-      · exact hg d (by rw [hr]; exact List.mem_cons_of_mem _ hd)
+      · rfl
+      · exact h d (List.mem_cons_of_mem _ hd)
+    · simp only [pushDep, hl, if_false, List.mem_cons] at hd
+      rcases hd with rfl | hd
+      · rfl
+      · exact h d (List.mem_cons.2 hd)
+
+/-- the tracked field of a counter that was never written is empty -/
+def MapsInit (s : Storage) : Prop := ∀ i, alookup s.srcs (.ctr i) = none → mapLen s.maps i = 0
 
 /-- result of evaluating a call-free expression inside a frame -/
 structure FlatRes (call : Storage → NodeId → Storage × Res Nat) (P : Prog) (e : Expr) (a : Nat) (s : Storage)
     (fr : Frame) (rest : List Frame) (v : Nat) (fr' : Frame) : Prop where
   eq : evalE call P e a s = ({ s with stack := fr' :: rest }, .ok v)
   id : fr'.id = fr.id
-  mono : ∀ k, k ∈ depKeys fr.rdeps → k ∈ depKeys fr'.rdeps
-  good : FrameGood s fr → FrameGood s fr'
-  cov : ∀ σ' m' c', AgreeOn (depKeys fr'.rdeps) s.srcs s.maps σ' m' → evalPS c' P σ' m' e a = .ok v
+  mono : ∀ p : DepNode → Prop, AllN p fr'.rdeps → AllN p fr.rdeps
+  good : AllN (NodeGood s) fr.rdeps → AllN (NodeGood s) fr'.rdeps
+  stamps : (∀ d, d ∈ fr.rdeps → d.stamp = s.epoch) → ∀ d, d ∈ fr'.rdeps → d.stamp = s.epoch
+  cov : ∀ σ' m' c', AllN (ObsMatch s σ' m') fr'.rdeps → evalP c' P σ' m' e a = .ok v
 
 theorem regDep_cons (s : Storage) (fr : Frame) (rest : List Frame) (n : DepNode) (tu : Nat)
     (h : s.stack = fr :: rest) :
     regDep s n tu = { s with stack := { fr with rdeps := pushDep fr.rdeps ⟨n, s.epoch⟩, maxTu := max tu fr.maxTu } :: rest } := by
   simp [regDep, h]
 
+theorem keyObs_fst_some {σ : List (Key × SrcNode)} {m : List (List Nat)} {k : Key} {nd : SrcNode}
+    (h : alookup σ k = some nd) : (keyObs σ m k).1 = some nd.val := by simp [keyObs, h]
+
+theorem keyObs_fst_none {σ : List (Key × SrcNode)} {m : List (List Nat)} {k : Key}
+    (h : alookup σ k = none) : (keyObs σ m k).1 = none := by simp [keyObs, h]
+
+/-- a present source observed equal: same lookup value -/
+theorem lookup_of_obs {σ σ' : List (Key × SrcNode)} {m m' : List (List Nat)} {k : Key} {nd : SrcNode}
+    (h : alookup σ k = some nd) (ho : keyObs σ' m' k = keyObs σ m k) :
+    ∃ nd', alookup σ' k = some nd' ∧ nd'.val = nd.val := by
+  cases hl' : alookup σ' k with
+  | none =>
+    have e1 := keyObs_fst_none (m := m') hl'
+    have e2 := keyObs_fst_some (m := m) h
+    rw [ho] at e1; rw [e1] at e2; cases e2
+  | some nd' =>
+    have e1 := keyObs_fst_some (m := m') hl'
+    have e2 := keyObs_fst_some (m := m) h
+    rw [ho] at e1; rw [e1] at e2
+    exact ⟨nd', rfl, Option.some.inj e2⟩
+
+/-- one single dependency pushed on a frame -/
+theorem flatRes_push (call : Storage → NodeId → Storage × Res Nat) (P : Prog) (e : Expr) (a : Nat) (s : Storage)
+    (fr : Frame) (rest : List Frame) (v tu : Nat) (n : DepNode)
+    (heq : evalE call P e a s = ({ s with stack := { fr with rdeps := pushDep fr.rdeps ⟨n, s.epoch⟩, maxTu := tu } :: rest }, .ok v))
+    (hgood : NodeGood s n)
+    (hcov : ∀ σ' m' c', ObsMatch s σ' m' n → evalP c' P σ' m' e a = .ok v) :
+    FlatRes call P e a s fr rest v { fr with rdeps := pushDep fr.rdeps ⟨n, s.epoch⟩, maxTu := tu } :=
+  ⟨heq, rfl, fun p h => ((allN_pushDep p _ _ _).1 h).2, fun h => (allN_pushDep _ _ _ _).2 ⟨hgood, h⟩,
+   fun h => stamps_pushDep _ _ _ h, fun σ' m' c' h => hcov σ' m' c' ((allN_pushDep _ _ _ _).1 h).1⟩
+
 theorem evalE_flat (call : Storage → NodeId → Storage × Res Nat) (c : NodeId → Res Nat) (P : Prog) :
     ∀ (e : Expr), e.noCall = true → ∀ (a : Nat) (s : Storage) (fr : Frame) (rest : List Frame) (v : Nat),
-      s.stack = fr :: rest → evalPS c P s.srcs s.maps e a = .ok v →
+      s.stack = fr :: rest → MapsInit s → evalP c P s.srcs s.maps e a = .ok v →
       ∃ fr', FlatRes call P e a s fr rest v fr' := by
   intro e
   induction e with
   | lit n =>
-    intro _ a s fr rest v hs h
-    simp only [evalPS] at h; cases h
-    refine ⟨fr, ⟨?_, rfl, fun k hk => hk, fun hg => hg, ?_⟩⟩
+    intro _ a s fr rest v hs _ h
+    simp only [evalP] at h; cases h
+    refine ⟨fr, ⟨?_, rfl, fun _ h => h, fun hg => hg, fun h => h, ?_⟩⟩
     · simp only [evalE]; rw [← hs]
-    · intro σ' m' c' _; simp [evalPS]
+    · intro σ' m' c' _; simp [evalP]
   | param =>
-    intro _ a s fr rest v hs h
-    simp only [evalPS] at h; cases h
-    refine ⟨fr, ⟨?_, rfl, fun k hk => hk, fun hg => hg, ?_⟩⟩
+    intro _ a s fr rest v hs _ h
+    simp only [evalP] at h; cases h
+    refine ⟨fr, ⟨?_, rfl, fun _ h => h, fun hg => hg, fun h => h, ?_⟩⟩
     · simp only [evalE]; rw [← hs]
-    · intro σ' m' c' _; simp [evalPS]
+    · intro σ' m' c' _; simp [evalP]
   | src k ih =>
-    intro hnc a s fr rest v hs h
+    intro hnc a s fr rest v hs hmi h
     simp only [Expr.noCall] at hnc
-    simp only [evalPS] at h
-    cases hk : evalPS c P s.srcs s.maps k a with
+    simp only [evalP] at h
+    cases hk : evalP c P s.srcs s.maps k a with
     | panic p => simp [hk] at h
     | ok kv =>
       simp only [hk] at h
@@ -137,231 +179,259 @@ theorem evalE_flat (call : Storage → NodeId → Storage × Res Nat) (c : NodeI
       | none => simp [hl] at h
       | some nd =>
         simp only [hl] at h; cases h
-        obtain ⟨fr1, r1⟩ := ih hnc a s fr rest kv hs hk
-        refine ⟨{ fr1 with rdeps := pushDep fr1.rdeps ⟨.source (.src kv), s.epoch⟩, maxTu := max nd.tu fr1.maxTu }, ⟨?_, r1.id, ?_, ?_, ?_⟩⟩
+        obtain ⟨fr1, r1⟩ := ih hnc a s fr rest kv hs hmi hk
+        refine ⟨{ fr1 with rdeps := pushDep fr1.rdeps ⟨.source (.src kv), s.epoch⟩, maxTu := max nd.tu fr1.maxTu }, ⟨?_, r1.id, ?_, ?_, ?_, ?_⟩⟩
         · simp only [evalE, r1.eq, hl]
           rw [regDep_cons { s with stack := fr1 :: rest } fr1 rest _ _ rfl]
-        · intro k' hk'
-          exact (depKeys_pushDep _ _ _ _).2 (Or.inr (r1.mono _ hk'))
-        · intro hg
-          exact frameGood_push s fr1 _ nd _ hl (r1.good hg)
+        · intro p hp; exact r1.mono p ((allN_pushDep p _ _ _).1 hp).2
+        · intro hg; exact (allN_pushDep _ _ _ _).2 ⟨⟨nd, hl⟩, r1.good hg⟩
+        · intro hst; exact stamps_pushDep _ _ _ (r1.stamps hst)
         · intro σ' m' c' hag
-          have h1 : evalPS c' P σ' m' k a = .ok kv :=
-            r1.cov σ' m' c' (fun k' hk' => hag k' ((depKeys_pushDep _ _ _ _).2 (Or.inr hk')))
-          have h2 := hag (.src kv) ((depKeys_pushDep _ _ _ _).2 (Or.inl rfl))
-          simp only [keyObs, hl, Option.map] at h2
-          simp only [evalPS, h1]
-          cases hl' : alookup σ' (.src kv) with
-          | none => simp [hl'] at h2
-          | some nd' => simp [hl'] at h2; simp [h2]
+          obtain ⟨ho, hrest⟩ := (allN_pushDep _ _ _ _).1 hag
+          have h1 : evalP c' P σ' m' k a = .ok kv := r1.cov σ' m' c' hrest
+          obtain ⟨nd', hl', hv'⟩ := lookup_of_obs hl ho
+          simp only [evalP, h1, hl', hv']
   | sing i =>
-    intro _ a s fr rest v hs h
-    simp only [evalPS] at h
+    intro _ a s fr rest v hs _ h
+    simp only [evalP] at h
     cases hl : alookup s.srcs (.sing i) with
-    | none => simp [hl] at h
+    | none =>
+      simp only [hl] at h; cases h
+      refine ⟨_, flatRes_push call P _ a s fr rest 0 (max s.epoch fr.maxTu) (.absent (.sing i)) ?_ hl ?_⟩
+      · simp only [evalE, hl]; rw [regDep_cons s fr rest _ _ hs]
+      · intro σ' m' c' ho; simp only [evalP, ho.1]
     | some nd =>
       simp only [hl] at h; cases h
-      refine ⟨{ fr with rdeps := pushDep fr.rdeps ⟨.source (.sing i), s.epoch⟩, maxTu := max nd.tu fr.maxTu }, ⟨?_, rfl, ?_, ?_, ?_⟩⟩
+      refine ⟨_, flatRes_push call P _ a s fr rest (nd.val + 1) (max nd.tu fr.maxTu) (.source (.sing i)) ?_ ⟨nd, hl⟩ ?_⟩
       · simp only [evalE, hl]; rw [regDep_cons s fr rest _ _ hs]
-      · intro k' hk'; exact (depKeys_pushDep _ _ _ _).2 (Or.inr hk')
-      · intro hg; exact frameGood_push s fr _ nd _ hl hg
-      · intro σ' m' c' hag
-        have h2 := hag (.sing i) ((depKeys_pushDep _ _ _ _).2 (Or.inl rfl))
-        simp only [keyObs, hl, Option.map] at h2
-        simp only [evalPS]
-        cases hl' : alookup σ' (.sing i) with
-        | none => simp [hl'] at h2
-        | some nd' => simp [hl'] at h2; simp [h2]
+      · intro σ' m' c' ho
+        obtain ⟨nd', hl', hv'⟩ := lookup_of_obs hl ho
+        simp only [evalP, hl', hv']
   | trk m =>
-    intro _ a s fr rest v hs h
-    simp only [evalPS] at h
+    intro _ a s fr rest v hs hmi h
+    simp only [evalP] at h; cases h
     cases hl : alookup s.srcs (.ctr m) with
-    | none => simp [hl] at h
-    | some nd =>
-      simp only [hl] at h; cases h
-      refine ⟨{ fr with rdeps := pushDep fr.rdeps ⟨.source (.ctr m), s.epoch⟩, maxTu := max nd.tu fr.maxTu }, ⟨?_, rfl, ?_, ?_, ?_⟩⟩
+    | none =>
+      refine ⟨_, flatRes_push call P _ a s fr rest (mapLen s.maps m) (max s.epoch fr.maxTu) (.absent (.ctr m)) ?_ hl ?_⟩
       · simp only [evalE, hl]; rw [regDep_cons s fr rest _ _ hs]
-      · intro k' hk'; exact (depKeys_pushDep _ _ _ _).2 (Or.inr hk')
-      · intro hg; exact frameGood_push s fr _ nd _ hl hg
-      · intro σ' m' c' hag
-        have h2 := hag (.ctr m) ((depKeys_pushDep _ _ _ _).2 (Or.inl rfl))
-        simp only [keyObs, hl, Option.map] at h2
-        simp only [evalPS]
-        cases hl' : alookup σ' (.ctr m) with
-        | none => simp [hl'] at h2
-        | some nd' => simp [hl'] at h2; simp [h2]
+      · intro σ' m' c' ho; simp only [evalP]; rw [ho.2 m rfl, hmi m hl]
+    | some nd =>
+      refine ⟨_, flatRes_push call P _ a s fr rest (mapLen s.maps m) (max nd.tu fr.maxTu) (.source (.ctr m)) ?_ ⟨nd, hl⟩ ?_⟩
+      · simp only [evalE, hl]; rw [regDep_cons s fr rest _ _ hs]
+      · intro σ' m' c' ho
+        have : mapLen m' m = mapLen s.maps m := by
+          have := congrArg Prod.snd ho
+          simpa [keyObs] using this
+        simp only [evalP, this]
   | call f e _ => intro hnc; simp [Expr.noCall] at hnc
   | add x y ihx ihy =>
-    intro hnc a s fr rest v hs h
+    intro hnc a s fr rest v hs hmi h
     simp only [Expr.noCall, Bool.and_eq_true] at hnc
-    simp only [evalPS] at h
-    cases hx : evalPS c P s.srcs s.maps x a with
+    simp only [evalP] at h
+    cases hx : evalP c P s.srcs s.maps x a with
     | panic p => simp [hx] at h
     | ok xv =>
       simp only [hx] at h
-      cases hy : evalPS c P s.srcs s.maps y a with
+      cases hy : evalP c P s.srcs s.maps y a with
       | panic p => simp [hy] at h
       | ok yv =>
         simp only [hy] at h; cases h
-        obtain ⟨fr1, r1⟩ := ihx hnc.1 a s fr rest xv hs hx
-        obtain ⟨fr2, r2⟩ := ihy hnc.2 a { s with stack := fr1 :: rest } fr1 rest yv rfl hy
-        refine ⟨fr2, ⟨?_, r2.id.trans r1.id, fun k hk => r2.mono _ (r1.mono _ hk), fun hg => r2.good (r1.good hg), ?_⟩⟩
+        obtain ⟨fr1, r1⟩ := ihx hnc.1 a s fr rest xv hs hmi hx
+        obtain ⟨fr2, r2⟩ := ihy hnc.2 a { s with stack := fr1 :: rest } fr1 rest yv rfl hmi hy
+        refine ⟨fr2, ⟨?_, r2.id.trans r1.id, fun p hp => r1.mono p (r2.mono p hp), fun hg => r2.good (r1.good hg),
+          fun hst => r2.stamps (r1.stamps hst), ?_⟩⟩
         · simp only [evalE, r1.eq, r2.eq]
         · intro σ' m' c' hag
-          have h1 := r1.cov σ' m' c' (fun k hk => hag k (r2.mono _ hk))
+          have h1 := r1.cov σ' m' c' (r2.mono _ hag)
           have h2 := r2.cov σ' m' c' hag
-          simp only [evalPS, h1, h2]
+          simp only [evalP, h1, h2]
   | eq x y ihx ihy =>
-    intro hnc a s fr rest v hs h
+    intro hnc a s fr rest v hs hmi h
     simp only [Expr.noCall, Bool.and_eq_true] at hnc
-    simp only [evalPS] at h
-    cases hx : evalPS c P s.srcs s.maps x a with
+    simp only [evalP] at h
+    cases hx : evalP c P s.srcs s.maps x a with
     | panic p => simp [hx] at h
     | ok xv =>
       simp only [hx] at h
-      cases hy : evalPS c P s.srcs s.maps y a with
+      cases hy : evalP c P s.srcs s.maps y a with
       | panic p => simp [hy] at h
       | ok yv =>
         simp only [hy] at h; cases h
-        obtain ⟨fr1, r1⟩ := ihx hnc.1 a s fr rest xv hs hx
-        obtain ⟨fr2, r2⟩ := ihy hnc.2 a { s with stack := fr1 :: rest } fr1 rest yv rfl hy
-        refine ⟨fr2, ⟨?_, r2.id.trans r1.id, fun k hk => r2.mono _ (r1.mono _ hk), fun hg => r2.good (r1.good hg), ?_⟩⟩
+        obtain ⟨fr1, r1⟩ := ihx hnc.1 a s fr rest xv hs hmi hx
+        obtain ⟨fr2, r2⟩ := ihy hnc.2 a { s with stack := fr1 :: rest } fr1 rest yv rfl hmi hy
+        refine ⟨fr2, ⟨?_, r2.id.trans r1.id, fun p hp => r1.mono p (r2.mono p hp), fun hg => r2.good (r1.good hg),
+          fun hst => r2.stamps (r1.stamps hst), ?_⟩⟩
         · simp only [evalE, r1.eq, r2.eq]
         · intro σ' m' c' hag
-          have h1 := r1.cov σ' m' c' (fun k hk => hag k (r2.mono _ hk))
+          have h1 := r1.cov σ' m' c' (r2.mono _ hag)
           have h2 := r2.cov σ' m' c' hag
-          simp only [evalPS, h1, h2]
+          simp only [evalP, h1, h2]
   | ite cnd t e ihc iht ihe =>
-    intro hnc a s fr rest v hs h
+    intro hnc a s fr rest v hs hmi h
     simp only [Expr.noCall, Bool.and_eq_true] at hnc
-    simp only [evalPS] at h
-    cases hcv : evalPS c P s.srcs s.maps cnd a with
+    simp only [evalP] at h
+    cases hcv : evalP c P s.srcs s.maps cnd a with
     | panic p => simp [hcv] at h
     | ok cv =>
       simp only [hcv] at h
-      obtain ⟨fr1, r1⟩ := ihc hnc.1.1 a s fr rest cv hs hcv
+      obtain ⟨fr1, r1⟩ := ihc hnc.1.1 a s fr rest cv hs hmi hcv
       by_cases hz : cv ≠ 0
       · rw [if_pos hz] at h
-        obtain ⟨fr2, r2⟩ := iht hnc.1.2 a { s with stack := fr1 :: rest } fr1 rest v rfl h
-        refine ⟨fr2, ⟨?_, r2.id.trans r1.id, fun k hk => r2.mono _ (r1.mono _ hk), fun hg => r2.good (r1.good hg), ?_⟩⟩
+        obtain ⟨fr2, r2⟩ := iht hnc.1.2 a { s with stack := fr1 :: rest } fr1 rest v rfl hmi h
+        refine ⟨fr2, ⟨?_, r2.id.trans r1.id, fun p hp => r1.mono p (r2.mono p hp), fun hg => r2.good (r1.good hg),
+          fun hst => r2.stamps (r1.stamps hst), ?_⟩⟩
         · simp only [evalE, r1.eq]; rw [if_pos hz]; exact r2.eq
         · intro σ' m' c' hag
-          have h1 := r1.cov σ' m' c' (fun k hk => hag k (r2.mono _ hk))
+          have h1 := r1.cov σ' m' c' (r2.mono _ hag)
           have h2 := r2.cov σ' m' c' hag
-          simp only [evalPS, h1]; rw [if_pos hz]; exact h2
+          simp only [evalP, h1]; rw [if_pos hz]; exact h2
       · rw [if_neg hz] at h
-        obtain ⟨fr2, r2⟩ := ihe hnc.2 a { s with stack := fr1 :: rest } fr1 rest v rfl h
-        refine ⟨fr2, ⟨?_, r2.id.trans r1.id, fun k hk => r2.mono _ (r1.mono _ hk), fun hg => r2.good (r1.good hg), ?_⟩⟩
+        obtain ⟨fr2, r2⟩ := ihe hnc.2 a { s with stack := fr1 :: rest } fr1 rest v rfl hmi h
+        refine ⟨fr2, ⟨?_, r2.id.trans r1.id, fun p hp => r1.mono p (r2.mono p hp), fun hg => r2.good (r1.good hg),
+          fun hst => r2.stamps (r1.stamps hst), ?_⟩⟩
         · simp only [evalE, r1.eq]; rw [if_neg hz]; exact r2.eq
         · intro σ' m' c' hag
-          have h1 := r1.cov σ' m' c' (fun k hk => hag k (r2.mono _ hk))
+          have h1 := r1.cov σ' m' c' (r2.mono _ hag)
           have h2 := r2.cov σ' m' c' hag
-          simp only [evalPS, h1]; rw [if_neg hz]; exact h2
+          simp only [evalP, h1]; rw [if_neg hz]; exact h2
   | half x ih =>
-    intro hnc a s fr rest v hs h
+    intro hnc a s fr rest v hs hmi h
     simp only [Expr.noCall] at hnc
-    simp only [evalPS] at h
-    cases hx : evalPS c P s.srcs s.maps x a with
+    simp only [evalP] at h
+    cases hx : evalP c P s.srcs s.maps x a with
     | panic p => simp [hx] at h
     | ok xv =>
       simp only [hx] at h; cases h
-      obtain ⟨fr1, r1⟩ := ih hnc a s fr rest xv hs hx
-      refine ⟨fr1, ⟨?_, r1.id, r1.mono, r1.good, ?_⟩⟩
+      obtain ⟨fr1, r1⟩ := ih hnc a s fr rest xv hs hmi hx
+      refine ⟨fr1, ⟨?_, r1.id, r1.mono, r1.good, r1.stamps, ?_⟩⟩
       · simp only [evalE, r1.eq]
       · intro σ' m' c' hag
-        simp only [evalPS, r1.cov σ' m' c' hag]
+        simp only [evalP, r1.cov σ' m' c' hag]
 
 
 /-! ## the invariant -/
 
-def SrcOnly (deps : List Dep) : Prop := ∀ d, d ∈ deps → ∃ k, d.node = .source k
+def NoDerived (deps : List Dep) : Prop := ∀ d, d ∈ deps → (∃ k, d.node = .source k) ∨ (∃ k, d.node = .absent k)
 
-def DepsFresh (s : Storage) (deps : List Dep) : Prop :=
-  ∀ d, d ∈ deps → ∀ k, d.node = .source k → ∃ nd, alookup s.srcs k = some nd ∧ nd.tu ≤ d.stamp
+def DepsMatch (s : Storage) (σ' : List (Key × SrcNode)) (m' : List (List Nat)) (deps : List Dep) : Prop :=
+  ∀ d, d ∈ deps → DepMatch s σ' m' d
 
 structure NodeOk (P : Prog) (s : Storage) (n : NodeId) (r : Rev) : Prop where
   tv_le : r.tv ≤ s.epoch
-  srcOnly : SrcOnly r.deps
+  noDerived : NoDerived r.deps
   stamps : ∀ d, d ∈ r.deps → d.stamp ≤ r.tv
-  fresh_now : r.tv = s.epoch → DepsFresh s r.deps
-  sound : DepsFresh s r.deps → ∀ σ' m' c', AgreeOn (depKeys r.deps) s.srcs s.maps σ' m' →
-            evalPS c' P σ' m' (fnOf P n.fn).body n.arg = .ok r.val
+  fresh_now : r.tv = s.epoch → DepsMatch s s.srcs s.maps r.deps
+  sound : ∀ σ' m' c', DepsMatch s σ' m' r.deps → evalP c' P σ' m' (fnOf P n.fn).body n.arg = .ok r.val
 
 structure Inv1 (P : Prog) (s : Storage) : Prop where
   stack : s.stack = []
   srcTu : ∀ k nd, alookup s.srcs k = some nd → nd.tu ≤ s.epoch
+  mapsInit : MapsInit s
   nodes : ∀ n r, alookup s.derived n = some r → NodeOk P s n r
+
+theorem DepMatch.congr {s s' : Storage} {σ' : List (Key × SrcNode)} {m' : List (List Nat)} {d : Dep}
+    (hs : s'.srcs = s.srcs) (hm : s'.maps = s.maps) (h : DepMatch s σ' m' d) : DepMatch s' σ' m' d := by
+  unfold DepMatch at h ⊢
+  cases hd : d.node with
+  | source k => rw [hd] at h; simp only; rw [hs, hm]; exact h
+  | absent k => rw [hd] at h; exact h
+  | derived m => rw [hd] at h; exact h
 
 /-- `NodeOk` only looks at the epoch, the sources and the tracked fields -/
 theorem NodeOk.congr {P : Prog} {s : Storage} {n : NodeId} {r : Rev} (h : NodeOk P s n r) {s' : Storage}
     (he : s'.epoch = s.epoch) (hs : s'.srcs = s.srcs) (hm : s'.maps = s.maps) :
     NodeOk P s' n r := by
-  refine ⟨by rw [he]; exact h.tv_le, h.srcOnly, h.stamps, ?_, ?_⟩
-  · intro ht; have := h.fresh_now (by rw [← he]; exact ht)
-    intro d hd k hk; rw [hs]; exact this d hd k hk
-  · intro hf σ' m' c' hag
-    refine h.sound ?_ σ' m' c' ?_
-    · intro d hd k hk; have := hf d hd k hk; rw [hs] at this; exact this
-    · intro k hk; have := hag k hk; rw [hs, hm] at this; exact this
+  refine ⟨by rw [he]; exact h.tv_le, h.noDerived, h.stamps, ?_, ?_⟩
+  · intro ht d hd
+    have := h.fresh_now (by rw [← he]; exact ht) d hd
+    rw [hs, hm]; exact this.congr hs hm
+  · intro σ' m' c' hf
+    exact h.sound σ' m' c' (fun d hd => (hf d hd).congr hs.symm hm.symm)
 
 theorem Inv1.congr {P : Prog} {s : Storage} (h : Inv1 P s) {s' : Storage} (hst : s'.stack = []) (he : s'.epoch = s.epoch)
     (hs : s'.srcs = s.srcs) (hm : s'.maps = s.maps) (hd : s'.derived = s.derived) : Inv1 P s' :=
   ⟨hst, by intro k nd hk; rw [he]; rw [hs] at hk; exact h.srcTu k nd hk,
+   by intro i hi; rw [hs] at hi; rw [hm]; exact h.mapsInit i hi,
    by intro n r hn; rw [hd] at hn; exact (h.nodes n r hn).congr he hs hm⟩
 
 /-! ## one execution -/
 
-theorem anyDep_srcOnly (ex : Storage → NodeId → Storage × Res Bool) :
-    ∀ (deps : List Dep) (s : Storage), SrcOnly deps → (∀ d, d ∈ deps → d.stamp < s.epoch) →
-      ∃ b, anyDep (depChanged ex) deps s = (s, .ok b) ∧ (b = false → DepsFresh s deps) := by
+theorem anyDep_noDerived (ex : Storage → NodeId → Storage × Res Bool) :
+    ∀ (deps : List Dep) (s : Storage), NoDerived deps → (∀ d, d ∈ deps → d.stamp < s.epoch) → MapsInit s →
+      ∃ b, anyDep (depChanged ex) deps s = (s, .ok b) ∧ (b = false → DepsMatch s s.srcs s.maps deps) := by
   intro deps
   induction deps with
-  | nil => intro s _ _; exact ⟨false, rfl, fun _ d hd => by cases hd⟩
+  | nil => intro s _ _ _; exact ⟨false, rfl, fun _ d hd => by cases hd⟩
   | cons d ds ih =>
-    intro s hso hst
-    obtain ⟨k, hk⟩ := hso d List.mem_cons_self
+    intro s hso hst hmi
     have hne : d.stamp ≠ s.epoch := Nat.ne_of_lt (hst d List.mem_cons_self)
     obtain ⟨b, hb, hfb⟩ := ih s (fun d' hd' => hso d' (List.mem_cons_of_mem _ hd'))
-      (fun d' hd' => hst d' (List.mem_cons_of_mem _ hd'))
-    simp only [anyDep, if_neg hne, depChanged, hk]
-    cases hl : alookup s.srcs k with
-    | none => exact ⟨true, by simp, by intro h; cases h⟩
-    | some nd =>
-      by_cases hgt : nd.tu > d.stamp
-      · exact ⟨true, by simp [hgt], by intro h; cases h⟩
-      · refine ⟨b, by simp [hgt, hb], ?_⟩
-        intro hbf d' hd' k' hk'
+      (fun d' hd' => hst d' (List.mem_cons_of_mem _ hd')) hmi
+    rcases hso d List.mem_cons_self with ⟨k, hk⟩ | ⟨k, hk⟩
+    · simp only [anyDep, if_neg hne, depChanged, hk]
+      cases hl : alookup s.srcs k with
+      | none => exact ⟨true, by simp, by intro h; cases h⟩
+      | some nd =>
+        by_cases hgt : nd.tu > d.stamp
+        · exact ⟨true, by simp [hgt], by intro h; cases h⟩
+        · refine ⟨b, by simp [hgt, hb], ?_⟩
+          intro hbf d' hd'
+          rcases List.mem_cons.1 hd' with rfl | hd''
+          · unfold DepMatch; rw [hk]; exact ⟨⟨nd, hl, Nat.le_of_not_gt hgt⟩, rfl⟩
+          · exact hfb hbf d' hd''
+    · simp only [anyDep, if_neg hne, depChanged, hk]
+      cases hl : alookup s.srcs k with
+      | some nd => exact ⟨true, by simp, by intro h; cases h⟩
+      | none =>
+        refine ⟨b, by simp [hb], ?_⟩
+        intro hbf d' hd'
         rcases List.mem_cons.1 hd' with rfl | hd''
-        · rw [hk] at hk'; cases hk'; exact ⟨nd, hl, Nat.le_of_not_gt hgt⟩
-        · exact hfb hbf d' hd'' k' hk'
+        · unfold DepMatch; rw [hk]; exact ⟨hl, fun i hi => hmi i (by rw [← hi]; exact hl)⟩
+        · exact hfb hbf d' hd''
 
 /-- a node just executed (its frame started empty) satisfies `NodeOk` -/
 theorem nodeOk_fresh_exec {P : Prog} {s : Storage} {id : NodeId} {call : Storage → NodeId → Storage × Res Nat}
     {fr' : Frame} {v : Nat} {rest : List Frame} {s0 : Storage}
     (r : FlatRes call P (fnOf P id.fn).body id.arg s0 ⟨id, [], 1⟩ rest v fr') (tu : Nat)
     (he : s0.epoch = s.epoch) (hs : s0.srcs = s.srcs) (hm : s0.maps = s.maps)
-    (hsrcTu : ∀ k nd, alookup s.srcs k = some nd → nd.tu ≤ s.epoch) :
+    (hsrcTu : ∀ k nd, alookup s.srcs k = some nd → nd.tu ≤ s.epoch) (hmi : MapsInit s) :
     NodeOk P s id (Rev.mk v tu s.epoch fr'.rdeps.reverse) := by
-  have hg : FrameGood s0 fr' := r.good (fun d hd => by cases hd)
-  refine ⟨Nat.le_refl _, ?_, ?_, ?_, ?_⟩
+  have hg : AllN (NodeGood s0) fr'.rdeps := r.good (fun d hd => by cases hd)
+  have hstamp : ∀ d, d ∈ fr'.rdeps → d.stamp = s0.epoch := r.stamps (fun d hd => by cases hd)
+  have hmatch : DepsMatch s s.srcs s.maps fr'.rdeps.reverse := by
+    intro d hd
+    have hd' := List.mem_reverse.1 hd
+    have hgd := hg d hd'
+    unfold DepMatch
+    cases hn : d.node with
+    | source k =>
+      rw [hn] at hgd
+      obtain ⟨nd, hl⟩ := hgd
+      rw [hs] at hl
+      exact ⟨⟨nd, hl, by rw [hstamp d hd', he]; exact hsrcTu _ _ hl⟩, rfl⟩
+    | absent k =>
+      rw [hn] at hgd
+      have hl : alookup s.srcs k = none := by rw [← hs]; exact hgd
+      exact ⟨hl, fun i hi => hmi i (by rw [← hi]; exact hl)⟩
+    | derived m => rw [hn] at hgd; exact hgd
+  refine ⟨Nat.le_refl _, ?_, ?_, fun _ => hmatch, ?_⟩
   · intro d hd
-    obtain ⟨_, k, nd, hk, _⟩ := hg d (List.mem_reverse.1 hd)
-    exact ⟨k, hk⟩
+    have hgd := hg d (List.mem_reverse.1 hd)
+    cases hn : d.node with
+    | source k => exact Or.inl ⟨k, rfl⟩
+    | absent k => exact Or.inr ⟨k, rfl⟩
+    | derived m => rw [hn] at hgd; exact absurd hgd (by simp [NodeGood])
   · intro d hd
-    have := (hg d (List.mem_reverse.1 hd)).1
     show d.stamp ≤ s.epoch
-    rw [this, he]; exact Nat.le_refl _
-  · intro _ d hd k hk
-    obtain ⟨hst, k', nd, hk', hl⟩ := hg d (List.mem_reverse.1 hd)
-    rw [hk] at hk'; cases hk'
-    rw [hs] at hl
-    exact ⟨nd, hl, by rw [hst, he]; exact hsrcTu _ _ hl⟩
-  · intro _ σ' m' c' hag
+    rw [hstamp d (List.mem_reverse.1 hd), he]; exact Nat.le_refl _
+  · intro σ' m' c' hf
     refine r.cov σ' m' c' ?_
-    intro k hk
-    have := hag k ((depKeys_reverse _ _).2 hk)
-    rw [hs, hm]; exact this
-
+    intro d hd
+    have := (hf d (List.mem_reverse.2 hd)).obs
+    cases hn : d.node with
+    | source k => rw [hn] at this; unfold ObsMatch at this ⊢; rw [hs, hm]; exact this
+    | absent k => rw [hn] at this; exact this
+    | derived m => trivial
 
 theorem flat_fnOf {P : Prog} (h : Flat P) (f : Nat) : (fnOf P f).body.noCall = true := by
   unfold fnOf
@@ -371,14 +441,14 @@ theorem flat_fnOf {P : Prog} (h : Flat P) (f : Nat) : (fnOf P f).body.noCall = t
   | some fn => exact h fn (List.mem_of_getElem? hg)
 
 theorem invoke_flat (call : Storage → NodeId → Storage × Res Nat) (c : NodeId → Res Nat) {P : Prog} (hflat : Flat P)
-    (s : Storage) (id : NodeId) (v : Nat) (hst : s.stack = [])
-    (hv : evalPS c P s.srcs s.maps (fnOf P id.fn).body id.arg = .ok v) :
+    (s : Storage) (id : NodeId) (v : Nat) (hst : s.stack = []) (hmi : MapsInit s)
+    (hv : evalP c P s.srcs s.maps (fnOf P id.fn).body id.arg = .ok v) :
     ∃ fr', invoke call P s id = ({ s with runs := bump s.runs id.fn, log := id :: s.log }, .ok (v, fr')) ∧
       FlatRes call P (fnOf P id.fn).body id.arg
         { s with stack := ⟨id, [], 1⟩ :: s.stack, runs := bump s.runs id.fn, log := id :: s.log } ⟨id, [], 1⟩ [] v fr' := by
   obtain ⟨fr', r⟩ := evalE_flat call c P _ (flat_fnOf hflat id.fn) id.arg
     { s with stack := ⟨id, [], 1⟩ :: s.stack, runs := bump s.runs id.fn, log := id :: s.log } ⟨id, [], 1⟩ [] v
-    (by simp [hst]) hv
+    (by simp [hst]) hmi hv
   refine ⟨fr', ?_, r⟩
   unfold invoke
   have hany : (s.stack.any fun fr => decide (fr.id = id)) = false := by simp [hst]
@@ -424,29 +494,35 @@ theorem exec_succ (fuel : Nat) (P : Prog) (s : Storage) (id : NodeId) :
 
 /-- what a top-level execution of a call-free function does (after the push) -/
 theorem execBody_flat {P : Prog} (hflat : Flat P) (c : NodeId → Res Nat) (n : Nat) (s0 : Storage) (id : NodeId) (v : Nat)
-    (hinv0 : Inv1 P s0) (hv : evalPS c P s0.srcs s0.maps (fnOf P id.fn).body id.arg = .ok v) :
+    (hinv0 : Inv1 P s0) (hv : evalP c P s0.srcs s0.maps (fnOf P id.fn).body id.arg = .ok v) :
     ∃ s' b r, execBody n P s0 id = (s', .ok b) ∧ Inv1 P s' ∧ alookup s'.derived id = some r ∧ r.val = v ∧
       s'.epoch = s0.epoch ∧ s'.srcs = s0.srcs ∧ s'.maps = s0.maps ∧ s'.poisoned = s0.poisoned ∧ r.tv = s'.epoch := by
   have hst0 := hinv0.stack
+  -- installing a revision for `id` that satisfies `NodeOk` keeps the invariant
+  have hinst : ∀ (sA : Storage) (r1 : Rev), sA.stack = [] → sA.epoch = s0.epoch → sA.srcs = s0.srcs → sA.maps = s0.maps →
+      (∀ n' r', n' ≠ id → alookup sA.derived n' = some r' → alookup s0.derived n' = some r') →
+      alookup sA.derived id = some r1 → NodeOk P s0 id r1 → Inv1 P sA := by
+    intro sA r1 h1 h2 h3 h4 h5 h6 h7
+    refine ⟨h1, ?_, ?_, ?_⟩
+    · intro k nd hk; rw [h2]; rw [h3] at hk; exact hinv0.srcTu k nd hk
+    · intro i hi; rw [h3] at hi; rw [h4]; exact hinv0.mapsInit i hi
+    · intro n' r' hn'
+      by_cases hid : n' = id
+      · subst hid; rw [h6] at hn'; cases hn'; exact h7.congr h2 h3 h4
+      · exact (hinv0.nodes n' r' (h5 n' r' hid hn')).congr h2 h3 h4
   unfold execBody
   cases hl : alookup s0.derived id with
   | none =>
     simp only
-    obtain ⟨fr', hi, r⟩ := invoke_flat (callVia (exec n P)) c hflat s0 id v hst0 hv
+    obtain ⟨fr', hi, r⟩ := invoke_flat (callVia (exec n P)) c hflat s0 id v hst0 hinv0.mapsInit hv
     simp only [hi]
+    have hnode := nodeOk_fresh_exec (s := s0) r fr'.maxTu rfl rfl rfl hinv0.srcTu hinv0.mapsInit
     refine ⟨_, true, Rev.mk v fr'.maxTu s0.epoch fr'.rdeps.reverse, rfl, ?_, ?_, rfl, ?_⟩
-    · refine ⟨?_, ?_, ?_⟩
-      · simp [regDep, hst0]
-      · intro k nd hk; simp [regDep, hst0] at hk ⊢; exact hinv0.srcTu k nd hk
-      · intro n' r' hn'
+    · refine hinst _ _ (by simp [regDep, hst0]) (by simp [regDep, hst0]) (by simp [regDep, hst0]) (by simp [regDep, hst0]) ?_ ?_ hnode
+      · intro n' r' hne hn'
         simp only [regDep, hst0] at hn'
-        have hnode := nodeOk_fresh_exec (s := s0) r fr'.maxTu rfl rfl rfl hinv0.srcTu
-        by_cases hid : id = n'
-        · subst hid
-          rw [alookup_ainsert_self] at hn'; cases hn'
-          exact hnode.congr (by simp [regDep, hst0]) (by simp [regDep, hst0]) (by simp [regDep, hst0])
-        · rw [alookup_ainsert_ne _ _ _ _ hid] at hn'
-          exact (hinv0.nodes n' r' hn').congr (by simp [regDep, hst0]) (by simp [regDep, hst0]) (by simp [regDep, hst0])
+        rw [alookup_ainsert_ne _ _ _ _ (Ne.symm hne)] at hn'; exact hn'
+      · simp only [regDep, hst0]; exact alookup_ainsert_self _ _ _
     · simp only [regDep, hst0]; exact alookup_ainsert_self _ _ _
     · simp [regDep, hst0]
   | some rev =>
@@ -457,11 +533,10 @@ theorem execBody_flat {P : Prog} (hflat : Flat P) (c : NodeId → Res Nat) (n : 
       refine ⟨_, false, rev, rfl, ?_, ?_, ?_, ?_⟩
       · exact hinv0.congr (by simp [regDep, hst0]) (by simp [regDep, hst0]) (by simp [regDep, hst0]) (by simp [regDep, hst0]) (by simp [regDep, hst0])
       · simp only [regDep, hst0]; exact hl
-      · have := hok.sound (hok.fresh_now htv) s0.srcs s0.maps c (fun _ _ => rfl)
+      · have := hok.sound s0.srcs s0.maps c (hok.fresh_now htv)
         rw [hv] at this; cases this; rfl
       · simp [regDep, hst0, htv]
     · simp only [if_neg htv]
-      -- `verify_derived_node`
       have hsetTv : setTv s0 id s0.epoch = { s0 with derived := ainsert s0.derived id (Rev.mk rev.val rev.tu s0.epoch rev.deps) } := by
         simp [setTv, hl]
       rw [hsetTv]
@@ -470,75 +545,57 @@ theorem execBody_flat {P : Prog} (hflat : Flat P) (c : NodeId → Res Nat) (n : 
         have h1 := hok.stamps d hd
         have h2 := hok.tv_le
         omega
-      obtain ⟨b, hb, hfb⟩ := anyDep_srcOnly (exec n P)
-        rev.deps { s0 with derived := ainsert s0.derived id (Rev.mk rev.val rev.tu s0.epoch rev.deps) } hok.srcOnly hlt
+      obtain ⟨b, hb, hfb⟩ := anyDep_noDerived (exec n P)
+        rev.deps { s0 with derived := ainsert s0.derived id (Rev.mk rev.val rev.tu s0.epoch rev.deps) } hok.noDerived hlt
+        hinv0.mapsInit
       simp only [hb]
-      -- the state in which the node counts as verified
-      have hinv1 : ∀ (r1 : Rev), r1.tv = s0.epoch → NodeOk P s0 id r1 →
-          Inv1 P { s0 with derived := ainsert s0.derived id r1 } := by
-        intro r1 _ hr1
-        refine ⟨hst0, hinv0.srcTu, ?_⟩
-        intro n' r' hn'
-        by_cases hid : id = n'
-        · subst hid
-          simp only [alookup_ainsert_self] at hn'; cases hn'
-          exact hr1.congr rfl rfl rfl
-        · simp only [alookup_ainsert_ne _ _ _ _ hid] at hn'
-          exact (hinv0.nodes n' r' hn').congr rfl rfl rfl
       cases b with
       | false =>
         simp only
-        have hfresh : DepsFresh s0 rev.deps := hfb rfl
+        have hfresh : DepsMatch s0 s0.srcs s0.maps rev.deps := hfb rfl
         have hnode : NodeOk P s0 id (Rev.mk rev.val rev.tu s0.epoch rev.deps) :=
-          ⟨Nat.le_refl _, hok.srcOnly, fun d hd => Nat.le_of_lt (hlt d hd), fun _ => hfresh, fun hf => hok.sound hf⟩
+          ⟨Nat.le_refl _, hok.noDerived, fun d hd => Nat.le_of_lt (hlt d hd), fun _ => hfresh, hok.sound⟩
         refine ⟨_, false, Rev.mk rev.val rev.tu s0.epoch rev.deps, rfl, ?_, ?_, ?_, ?_⟩
-        · exact (hinv1 _ rfl hnode).congr (by simp [regDep, hst0]) (by simp [regDep, hst0]) (by simp [regDep, hst0]) (by simp [regDep, hst0]) (by simp [regDep, hst0])
+        · refine hinst _ _ (by simp [regDep, hst0]) (by simp [regDep, hst0]) (by simp [regDep, hst0]) (by simp [regDep, hst0]) ?_ ?_ hnode
+          · intro n' r' hne hn'
+            simp only [regDep, hst0] at hn'
+            rw [alookup_ainsert_ne _ _ _ _ (Ne.symm hne)] at hn'; exact hn'
+          · simp only [regDep, hst0]; exact alookup_ainsert_self _ _ _
         · simp only [regDep, hst0]; exact alookup_ainsert_self _ _ _
-        · have := hok.sound hfresh s0.srcs s0.maps c (fun _ _ => rfl)
+        · have := hok.sound s0.srcs s0.maps c hfresh
           rw [hv] at this; cases this; rfl
         · simp [regDep, hst0]
       | true =>
         simp only
         obtain ⟨fr', hi, r⟩ := invoke_flat (callVia (exec n P)) c hflat
-          { s0 with derived := ainsert s0.derived id (Rev.mk rev.val rev.tu s0.epoch rev.deps) } id v hst0 hv
+          { s0 with derived := ainsert s0.derived id (Rev.mk rev.val rev.tu s0.epoch rev.deps) } id v hst0 hinv0.mapsInit hv
         simp only [hi, alookup_ainsert_self]
         have hnode : ∀ tu, NodeOk P s0 id (Rev.mk v tu s0.epoch fr'.rdeps.reverse) := fun tu =>
-          nodeOk_fresh_exec (s := s0) r tu rfl rfl rfl hinv0.srcTu
+          nodeOk_fresh_exec (s := s0) r tu rfl rfl rfl hinv0.srcTu hinv0.mapsInit
         by_cases hval : rev.val ≠ v
         · simp only [if_pos hval]
           refine ⟨_, true, Rev.mk v fr'.maxTu s0.epoch fr'.rdeps.reverse, rfl, ?_, ?_, rfl, ?_⟩
-          · refine ⟨by simp [regDep, hst0], ?_, ?_⟩
-            · intro k nd hk; simp [regDep, hst0] at hk ⊢; exact hinv0.srcTu k nd hk
-            · intro n' r' hn'
+          · refine hinst _ (Rev.mk v fr'.maxTu s0.epoch fr'.rdeps.reverse) (by simp [regDep, hst0]) (by simp [regDep, hst0]) (by simp [regDep, hst0]) (by simp [regDep, hst0]) ?_ ?_ (hnode _)
+            · intro n' r' hne hn'
               simp only [regDep, hst0] at hn'
-              by_cases hid : id = n'
-              · subst hid
-                rw [alookup_ainsert_self] at hn'; cases hn'
-                exact (hnode _).congr (by simp [regDep, hst0]) (by simp [regDep, hst0]) (by simp [regDep, hst0])
-              · rw [alookup_ainsert_ne _ _ _ _ hid, alookup_ainsert_ne _ _ _ _ hid] at hn'
-                exact (hinv0.nodes n' r' hn').congr (by simp [regDep, hst0]) (by simp [regDep, hst0]) (by simp [regDep, hst0])
+              rw [alookup_ainsert_ne _ _ _ _ (Ne.symm hne), alookup_ainsert_ne _ _ _ _ (Ne.symm hne)] at hn'; exact hn'
+            · simp only [regDep, hst0]; exact alookup_ainsert_self _ _ _
           · simp only [regDep, hst0]; exact alookup_ainsert_self _ _ _
           · simp [regDep, hst0]
         · simp only [if_neg hval]
           have hval' : rev.val = v := Decidable.of_not_not hval
           refine ⟨_, false, Rev.mk rev.val rev.tu s0.epoch fr'.rdeps.reverse, rfl, ?_, ?_, hval', ?_⟩
-          · refine ⟨by simp [regDep, hst0], ?_, ?_⟩
-            · intro k nd hk; simp [regDep, hst0] at hk ⊢; exact hinv0.srcTu k nd hk
-            · intro n' r' hn'
+          · refine hinst _ (Rev.mk rev.val rev.tu s0.epoch fr'.rdeps.reverse) (by simp [regDep, hst0]) (by simp [regDep, hst0]) (by simp [regDep, hst0]) (by simp [regDep, hst0]) ?_ ?_
+              (by rw [hval']; exact hnode _)
+            · intro n' r' hne hn'
               simp only [regDep, hst0] at hn'
-              by_cases hid : id = n'
-              · subst hid
-                rw [alookup_ainsert_self] at hn'; cases hn'
-                rw [hval']
-                exact (hnode _).congr (by simp [regDep, hst0]) (by simp [regDep, hst0]) (by simp [regDep, hst0])
-              · rw [alookup_ainsert_ne _ _ _ _ hid, alookup_ainsert_ne _ _ _ _ hid] at hn'
-                exact (hinv0.nodes n' r' hn').congr (by simp [regDep, hst0]) (by simp [regDep, hst0]) (by simp [regDep, hst0])
+              rw [alookup_ainsert_ne _ _ _ _ (Ne.symm hne), alookup_ainsert_ne _ _ _ _ (Ne.symm hne)] at hn'; exact hn'
+            · simp only [regDep, hst0]; exact alookup_ainsert_self _ _ _
           · simp only [regDep, hst0]; exact alookup_ainsert_self _ _ _
           · simp [regDep, hst0]
 
-
 theorem exec_flat {P : Prog} (hflat : Flat P) (c : NodeId → Res Nat) (n : Nat) (s : Storage) (id : NodeId) (v : Nat)
-    (hinv : Inv1 P s) (hv : evalPS c P s.srcs s.maps (fnOf P id.fn).body id.arg = .ok v) :
+    (hinv : Inv1 P s) (hv : evalP c P s.srcs s.maps (fnOf P id.fn).body id.arg = .ok v) :
     ∃ s' b r, exec (n + 1) P s id = (s', .ok b) ∧ Inv1 P s' ∧ alookup s'.derived id = some r ∧ r.val = v ∧
       s'.epoch = s.epoch ∧ s'.srcs = s.srcs ∧ s'.maps = s.maps ∧ s'.poisoned = s.poisoned ∧ r.tv = s'.epoch := by
   rw [exec_succ]
@@ -546,373 +603,5 @@ theorem exec_flat {P : Prog} (hflat : Flat P) (c : NodeId → Res Nat) (n : Nat)
     simp [pushTop, hinv.stack]
   rw [hp]
   exact execBody_flat hflat c n _ id v (hinv.congr hinv.stack rfl rfl rfl rfl) hv
-
-
-/-! ## source operations -/
-
-/-- a key is overwritten with a new stamp / removed, the epoch advances; everything else is as before -/
-theorem NodeOk.touch {P : Prog} {s : Storage} {n : NodeId} {r : Rev} (h : NodeOk P s n r) {s' : Storage} (k0 : Key)
-    (he : s'.epoch = s.epoch + 1)
-    (hk0 : alookup s'.srcs k0 = none ∨ ∃ nd, alookup s'.srcs k0 = some nd ∧ nd.tu = s.epoch + 1)
-    (hsame : ∀ k, k ≠ k0 → alookup s'.srcs k = alookup s.srcs k ∧ keyObs s'.srcs s'.maps k = keyObs s.srcs s.maps k) :
-    NodeOk P s' n r := by
-  have hnot : DepsFresh s' r.deps → k0 ∉ depKeys r.deps := by
-    intro hf hmem
-    obtain ⟨d, hd, hk⟩ := mem_depKeys.1 hmem
-    obtain ⟨nd, hnd, hle⟩ := hf d hd k0 hk
-    have h1 := h.stamps d hd
-    have h2 := h.tv_le
-    rcases hk0 with hk0 | ⟨nd', hnd', htu⟩
-    · rw [hk0] at hnd; cases hnd
-    · rw [hnd'] at hnd; cases hnd; omega
-  refine ⟨by rw [he]; exact Nat.le_succ_of_le h.tv_le, h.srcOnly, h.stamps, ?_, ?_⟩
-  · intro ht; have := h.tv_le; omega
-  · intro hf σ' m' c' hag
-    have hk0' := hnot hf
-    refine h.sound ?_ σ' m' c' ?_
-    · intro d hd k hk
-      have hne : k ≠ k0 := fun e => hk0' (e ▸ mem_depKeys.2 ⟨d, hd, hk⟩)
-      have := hf d hd k hk
-      rw [(hsame k hne).1] at this; exact this
-    · intro k hk
-      have hne : k ≠ k0 := fun e => hk0' (e ▸ hk)
-      rw [← (hsame k hne).2]; exact hag k hk
-
-/-- a key that was absent is inserted without advancing the epoch -/
-theorem NodeOk.vacant {P : Prog} {s : Storage} {n : NodeId} {r : Rev} (h : NodeOk P s n r) {s' : Storage} (k0 : Key)
-    (he : s'.epoch = s.epoch) (habs : alookup s.srcs k0 = none)
-    (hk0 : ∃ nd, alookup s'.srcs k0 = some nd ∧ nd.tu = s.epoch)
-    (hsame : ∀ k, k ≠ k0 → alookup s'.srcs k = alookup s.srcs k ∧ keyObs s'.srcs s'.maps k = keyObs s.srcs s.maps k) :
-    NodeOk P s' n r := by
-  -- a fresh node (in either state) does not mention the key
-  have hnot' : DepsFresh s' r.deps → k0 ∉ depKeys r.deps := by
-    intro hf hmem
-    obtain ⟨d, hd, hk⟩ := mem_depKeys.1 hmem
-    obtain ⟨nd, hnd, hle⟩ := hf d hd k0 hk
-    obtain ⟨nd', hnd', htu⟩ := hk0
-    rw [hnd'] at hnd; cases hnd
-    have h1 := h.stamps d hd
-    have h2 := h.tv_le
-    have htv : r.tv = s.epoch := by omega
-    obtain ⟨nd2, hnd2, _⟩ := h.fresh_now htv d hd k0 hk
-    rw [habs] at hnd2; cases hnd2
-  have hnot : DepsFresh s r.deps → k0 ∉ depKeys r.deps := by
-    intro hf hmem
-    obtain ⟨d, hd, hk⟩ := mem_depKeys.1 hmem
-    obtain ⟨nd, hnd, _⟩ := hf d hd k0 hk
-    rw [habs] at hnd; cases hnd
-  refine ⟨by rw [he]; exact h.tv_le, h.srcOnly, h.stamps, ?_, ?_⟩
-  · intro ht
-    have hf := h.fresh_now (by rw [← he]; exact ht)
-    have hk0' := hnot hf
-    intro d hd k hk
-    have hne : k ≠ k0 := fun e => hk0' (e ▸ mem_depKeys.2 ⟨d, hd, hk⟩)
-    rw [(hsame k hne).1]; exact hf d hd k hk
-  · intro hf σ' m' c' hag
-    have hk0' := hnot' hf
-    refine h.sound ?_ σ' m' c' ?_
-    · intro d hd k hk
-      have hne : k ≠ k0 := fun e => hk0' (e ▸ mem_depKeys.2 ⟨d, hd, hk⟩)
-      have := hf d hd k hk
-      rw [(hsame k hne).1] at this; exact this
-    · intro k hk
-      have hne : k ≠ k0 := fun e => hk0' (e ▸ hk)
-      rw [← (hsame k hne).2]; exact hag k hk
-
-theorem keyObs_of_lookup_maps {σ σ' : List (Key × SrcNode)} {m m' : List (List Nat)} {k : Key}
-    (h1 : alookup σ' k = alookup σ k) (h2 : ∀ i, k = .ctr i → mapLen m' i = mapLen m i) :
-    keyObs σ' m' k = keyObs σ m k := by
-  unfold keyObs
-  rw [h1]
-  cases k with
-  | src n => rfl
-  | sing i => rfl
-  | ctr i => simp [h2 i rfl]
-
-/-- `setSource` followed by an arbitrary change of the tracked field `mm` guarded by the counter `k0`
-(`mm = none`: no tracked field changes) -/
-theorem Inv1.setSource {P : Prog} {s : Storage} (h : Inv1 P s) (k0 : Key) (v : Nat) (maps' : List (List Nat))
-    (hmaps : ∀ i, Key.ctr i ≠ k0 → mapLen maps' i = mapLen s.maps i)
-    (hchg : alookup s.srcs k0 = none ∨ (∃ nd, alookup s.srcs k0 = some nd ∧ nd.val ≠ v) ∨ maps' = s.maps) :
-    Inv1 P { setSource s k0 v with maps := maps' } := by
-  unfold IsoVerif.Pico.setSource
-  cases hl : alookup s.srcs k0 with
-  | none =>
-    simp only
-    refine ⟨h.stack, ?_, ?_⟩
-    · intro k nd hk
-      simp only [alookup_ainsert] at hk
-      by_cases hkk : k0 = k
-      · simp [hkk] at hk; subst hk; exact Nat.le_refl _
-      · simp [hkk] at hk; exact h.srcTu k nd hk
-    · intro n r hn
-      refine (h.nodes n r hn).vacant k0 rfl hl ⟨⟨v, s.epoch⟩, alookup_ainsert_self _ _ _, rfl⟩ ?_
-      intro k hne
-      have h1 : alookup (ainsert s.srcs k0 ⟨v, s.epoch⟩) k = alookup s.srcs k := alookup_ainsert_ne _ _ _ _ (Ne.symm hne)
-      exact ⟨h1, keyObs_of_lookup_maps h1 (fun i hi => hmaps i (by rw [← hi]; exact hne))⟩
-  | some nd =>
-    simp only
-    by_cases hv : nd.val ≠ v
-    · simp only [if_pos hv]
-      refine ⟨h.stack, ?_, ?_⟩
-      · intro k nd' hk
-        simp only [alookup_ainsert] at hk
-        by_cases hkk : k0 = k
-        · simp [hkk] at hk; subst hk; exact Nat.le_refl _
-        · simp [hkk] at hk; exact Nat.le_succ_of_le (h.srcTu k nd' hk)
-      · intro n r hn
-        refine (h.nodes n r hn).touch k0 rfl (Or.inr ⟨⟨v, s.epoch + 1⟩, alookup_ainsert_self _ _ _, rfl⟩) ?_
-        intro k hne
-        have h1 : alookup (ainsert s.srcs k0 ⟨v, s.epoch + 1⟩) k = alookup s.srcs k := alookup_ainsert_ne _ _ _ _ (Ne.symm hne)
-        exact ⟨h1, keyObs_of_lookup_maps h1 (fun i hi => hmaps i (by rw [← hi]; exact hne))⟩
-    · simp only [if_neg hv]
-      -- nothing changes, so the tracked field must be unchanged as well
-      have hm : maps' = s.maps := by
-        rcases hchg with hc | ⟨nd', hnd', hne⟩ | hc
-        · rw [hl] at hc; cases hc
-        · rw [hl] at hnd'; cases hnd'; exact absurd hne hv
-        · exact hc
-      exact h.congr h.stack rfl rfl hm rfl
-
-theorem setSource_maps (s : Storage) (k : Key) (v : Nat) : (setSource s k v).maps = s.maps := by
-  unfold setSource; split
-  · split <;> rfl
-  · rfl
-
-theorem Inv1.setSource' {P : Prog} {s : Storage} (h : Inv1 P s) (k0 : Key) (v : Nat) :
-    Inv1 P (IsoVerif.Pico.setSource s k0 v) := by
-  have := h.setSource k0 v s.maps (fun _ _ => rfl) (Or.inr (Or.inr rfl))
-  exact this.congr this.stack rfl rfl (setSource_maps s k0 v) rfl
-
-theorem Inv1.removeSource {P : Prog} {s : Storage} (h : Inv1 P s) (k0 : Key) : Inv1 P (removeSource s k0) := by
-  unfold IsoVerif.Pico.removeSource
-  cases hl : alookup s.srcs k0 with
-  | none => exact h
-  | some nd =>
-    simp only
-    refine ⟨h.stack, ?_, ?_⟩
-    · intro k nd' hk
-      by_cases hkk : k0 = k
-      · subst hkk; rw [alookup_aerase_self] at hk; cases hk
-      · rw [alookup_aerase_ne _ _ _ hkk] at hk; exact Nat.le_succ_of_le (h.srcTu k nd' hk)
-    · intro n r hn
-      refine (h.nodes n r hn).touch k0 rfl (Or.inl (alookup_aerase_self _ _)) ?_
-      intro k hne
-      have h1 : alookup (aerase s.srcs k0) k = alookup s.srcs k := alookup_aerase_ne _ _ _ (Ne.symm hne)
-      exact ⟨h1, keyObs_of_lookup_maps h1 (fun _ _ => rfl)⟩
-
-
-/-! ## every operation -/
-
-theorem getD_setNth_ne {α : Type} (d x : α) : ∀ (l : List α) (m i : Nat), i ≠ m → (setNth l m x).getD i d = l.getD i d := by
-  intro l
-  induction l with
-  | nil => intro m i _; rfl
-  | cons y ys ih =>
-    intro m i hne
-    cases m with
-    | zero =>
-      cases i with
-      | zero => exact absurd rfl hne
-      | succ i => simp [setNth]
-    | succ m =>
-      cases i with
-      | zero => simp [setNth]
-      | succ i => simp [setNth]; exact ih m i (fun e => hne (by rw [e]))
-
-theorem mapLen_setNth_ne (maps : List (List Nat)) (m i : Nat) (x : List Nat) (h : i ≠ m) :
-    mapLen (setNth maps m x) i = mapLen maps i := by
-  unfold mapLen; rw [getD_setNth_ne _ _ _ _ _ h]
-
-theorem Inv1.touchCounter_maps {P : Prog} {s : Storage} (h : Inv1 P s) (m : Nat) (x : List Nat) :
-    Inv1 P { touchCounter s m with maps := setNth (touchCounter s m).maps m x } := by
-  have hmaps : (touchCounter s m).maps = s.maps := by
-    unfold touchCounter IsoVerif.Pico.setSource
-    cases hl : alookup s.srcs (.ctr m) with
-    | none => simp
-    | some nd => simp only; split <;> rfl
-  rw [hmaps]
-  unfold touchCounter
-  cases hl : alookup s.srcs (.ctr m) with
-  | none =>
-    simp only
-    exact h.setSource (.ctr m) 0 _ (fun i hi => mapLen_setNth_ne _ _ _ _ (fun e => hi (by rw [e]))) (Or.inl hl)
-  | some nd =>
-    simp only
-    exact h.setSource (.ctr m) (nd.val + 1) _ (fun i hi => mapLen_setNth_ne _ _ _ _ (fun e => hi (by rw [e])))
-      (Or.inr (Or.inl ⟨nd, hl, by omega⟩))
-
-theorem Inv1.gc {P : Prog} {s : Storage} (h : Inv1 P s) : Inv1 P (gc s).1 := by
-  unfold IsoVerif.Pico.gc
-  simp only
-  split
-  · exact h.congr h.stack rfl rfl rfl rfl
-  · refine ⟨h.stack, h.srcTu, ?_⟩
-    intro n r hn
-    exact (h.nodes n r (alookup_filterKey_some _ _ _ _ hn)).congr rfl rfl rfl
-
-/-- the outcome of a call in a state satisfying the invariant -/
-theorem step_call_flat {P : Prog} (hflat : Flat P) (fuel : Nat) (s : Storage) (f a v : Nat) (hinv : Inv1 P s)
-    (hv : evalSS fuel P s.srcs s.maps [] (nodeOf P f a) = .ok v) :
-    Inv1 P (step fuel P s (.call f a)).1 ∧
-      ((step fuel P s (.call f a)).2 = .dead ∨ (step fuel P s (.call f a)).2 = .val v) := by
-  unfold step
-  by_cases hp : s.poisoned = true
-  · rw [if_pos hp]; exact ⟨hinv, Or.inl rfl⟩
-  · rw [if_neg hp]
-    cases fuel with
-    | zero => simp [evalSS] at hv
-    | succ n =>
-      simp only [evalSS] at hv
-      have hc : ([] : List NodeId).contains (nodeOf P f a) = false := rfl
-      rw [if_neg (by simp)] at hv
-      obtain ⟨s', b, r, he, hinv', hl, hval, hep, hsr, hmp, _, _⟩ := exec_flat hflat _ n s (nodeOf P f a) v hinv hv
-      simp only [callVia, he, hl]
-      refine ⟨?_, Or.inr (by rw [hval])⟩
-      exact hinv'.congr hinv'.stack rfl rfl rfl rfl
-
-theorem Inv1.step {P : Prog} (hflat : Flat P) (fuel : Nat) {s : Storage} (hinv : Inv1 P s) (op : Op)
-    (hclean : ∀ f a, op = .call f a → ∃ v, evalSS fuel P s.srcs s.maps [] (nodeOf P f a) = .ok v) :
-    Inv1 P (step fuel P s op).1 := by
-  cases op with
-  | call f a =>
-    obtain ⟨v, hv⟩ := hclean f a rfl
-    exact (step_call_flat hflat fuel s f a v hinv hv).1
-  | set k v =>
-    unfold IsoVerif.Pico.step; split
-    · exact hinv
-    · exact hinv.setSource' (.src k) v
-  | rem k =>
-    unfold IsoVerif.Pico.step; split
-    · exact hinv
-    · exact hinv.removeSource _
-  | sset i v =>
-    unfold IsoVerif.Pico.step; split
-    · exact hinv
-    · exact hinv.setSource' (.sing i) v
-  | srem i =>
-    unfold IsoVerif.Pico.step; split
-    · exact hinv
-    · exact hinv.removeSource _
-  | tins m k =>
-    unfold IsoVerif.Pico.step; split
-    · exact hinv
-    · exact hinv.touchCounter_maps m _
-  | trem m k =>
-    unfold IsoVerif.Pico.step; split
-    · exact hinv
-    · exact hinv.touchCounter_maps m _
-  | look f a =>
-    unfold IsoVerif.Pico.step; split
-    · exact hinv
-    · simp only; split
-      · split <;> exact hinv
-      · exact hinv
-  | retain f a =>
-    unfold IsoVerif.Pico.step; split
-    · exact hinv
-    · simp only; split
-      · exact hinv.congr hinv.stack rfl rfl rfl rfl
-      · exact hinv
-  | unretain f a =>
-    unfold IsoVerif.Pico.step; split
-    · exact hinv
-    · simp only; split
-      · exact hinv.congr hinv.stack rfl rfl rfl rfl
-      · exact hinv
-  | nevergc f a =>
-    unfold IsoVerif.Pico.step; split
-    · exact hinv
-    · simp only; split
-      · exact hinv.congr hinv.stack rfl rfl rfl rfl
-      · exact hinv
-  | gc =>
-    unfold IsoVerif.Pico.step; split
-    · exact hinv
-    · have := hinv.gc
-      cases hg : IsoVerif.Pico.gc s with
-      | mk s' r =>
-        rw [hg] at this
-        cases r <;> exact this
-
-theorem Inv1.init (P : Prog) (cap nfn : Nat) : Inv1 P (Storage.init cap nfn) :=
-  ⟨rfl, by intro k nd h; simp [Storage.init] at h, by intro n r h; simp [Storage.init] at h⟩
-
-theorem runS_nil (fuel : Nat) (P : Prog) (s : Storage) : runS fuel P s [] = s := rfl
-
-theorem runS_cons (fuel : Nat) (P : Prog) (s : Storage) (op : Op) (ops : List Op) :
-    runS fuel P s (op :: ops) = runS fuel P (step fuel P s op).1 ops := by
-  simp [runS, run]
-
-theorem runS_append (fuel : Nat) (P : Prog) : ∀ (xs : List Op) (s : Storage) (ys : List Op),
-    runS fuel P s (xs ++ ys) = runS fuel P (runS fuel P s xs) ys := by
-  intro xs
-  induction xs with
-  | nil => intro s ys; rfl
-  | cons x xs ih => intro s ys; simp only [List.cons_append, runS_cons]; exact ih _ _
-
-/-- the invariant holds after every prefix of a history whose calls are clean -/
-theorem inv1_runS {P : Prog} (hflat : Flat P) (fuel : Nat) : ∀ (pre : List Op) (s : Storage), Inv1 P s →
-    (∀ p f a rest, pre = p ++ Op.call f a :: rest →
-        ∃ v, evalSS fuel P (runS fuel P s p).srcs (runS fuel P s p).maps [] (nodeOf P f a) = .ok v) →
-    Inv1 P (runS fuel P s pre) := by
-  intro pre
-  induction pre with
-  | nil => intro s h _; exact h
-  | cons op ops ih =>
-    intro s h hc
-    rw [runS_cons]
-    refine ih _ (h.step hflat fuel op ?_) ?_
-    · intro f a hop; subst hop; exact hc [] f a ops rfl
-    · intro p f a rest hp
-      have := hc (op :: p) f a rest (by rw [hp]; rfl)
-      rw [runS_cons] at this; exact this
-
-/-- **C01, stage 1** -/
-theorem c01_stage1 {P : Prog} (hflat : Flat P) (fuel cap : Nat) (h : List Op) (hclean : CleanCalls fuel cap P h)
-    (pre : List Op) (f a : Nat) (rest : List Op) (hh : h = pre ++ Op.call f a :: rest) :
-    (step fuel P (after fuel cap P pre) (.call f a)).2 = .dead ∨
-      (step fuel P (after fuel cap P pre) (.call f a)).2 = outOfRes (evalScratch fuel P (after fuel cap P pre) (nodeOf P f a)) := by
-  have hinv : Inv1 P (after fuel cap P pre) := by
-    unfold after
-    refine inv1_runS hflat fuel pre _ (Inv1.init P cap P.length) ?_
-    intro p f' a' rest' hp
-    exact hclean p f' a' (rest' ++ Op.call f a :: rest) (by rw [hh, hp]; simp)
-  obtain ⟨v, hv⟩ := hclean pre f a rest hh
-  have hs := evalSS_ok_evalS P _ _ fuel [] _ v hv
-  rcases (step_call_flat hflat fuel _ f a v hinv hv).2 with hd | hval
-  · exact Or.inl hd
-  · right; rw [hval]; unfold evalScratch; rw [hs]; rfl
-
-
-/-! ## a decidable form of `CleanCalls` (for concrete histories) -/
-
-def Res.isOk {α : Type} : Res α → Bool
-  | .ok _ => true
-  | .panic _ => false
-
-def cleanAt (fuel cap : Nat) (P : Prog) (h : List Op) (i : Nat) : Bool :=
-  match h.getD i .gc with
-  | .call f a => (evalSS fuel P (after fuel cap P (h.take i)).srcs (after fuel cap P (h.take i)).maps [] (nodeOf P f a)).isOk
-  | _ => true
-
-def cleanCallsB (fuel cap : Nat) (P : Prog) (h : List Op) : Bool := (List.range h.length).all (cleanAt fuel cap P h)
-
-theorem cleanCalls_of_B (fuel cap : Nat) (P : Prog) (h : List Op) (hb : cleanCallsB fuel cap P h = true) :
-    CleanCalls fuel cap P h := by
-  intro pre f a rest hh
-  have hlen : pre.length < h.length := by rw [hh]; simp
-  have hat : cleanAt fuel cap P h pre.length = true := by
-    unfold cleanCallsB at hb
-    rw [List.all_eq_true] at hb
-    exact hb _ (List.mem_range.2 hlen)
-  have htake : h.take pre.length = pre := by rw [hh]; simp
-  have hget : h.getD pre.length .gc = .call f a := by rw [hh]; simp
-  unfold cleanAt at hat
-  rw [hget, htake] at hat
-  simp only at hat
-  cases he : evalSS fuel P (after fuel cap P pre).srcs (after fuel cap P pre).maps [] (nodeOf P f a) with
-  | ok v => exact ⟨v, rfl⟩
-  | panic p => rw [he] at hat; simp [Res.isOk] at hat
 
 end IsoVerif.Pico
